@@ -5,6 +5,8 @@ package workers
 
 import "sync"
 
+import "github.com/ava-labs/hypersdk/internal/verifhook"
+
 var (
 	_ Workers = (*ParallelWorkers)(nil)
 	_ Job     = (*ParallelJob)(nil)
@@ -62,7 +64,9 @@ func NewParallel(workers int, maxJobs int) Workers {
 func (w *ParallelWorkers) processQueue() {
 	go func() {
 		for j := range w.queue {
+			verifhook.Yield("workers.queue.recv")
 			// Don't do work if should shutdown
+			verifhook.AwaitLock("workers.queue.lock1", 0, &w.lock)
 			w.lock.Lock()
 			shouldShutdown := w.shouldShutdown
 			w.lock.Unlock()
@@ -72,11 +76,14 @@ func (w *ParallelWorkers) processQueue() {
 			}
 			// Process tasks
 			for t := range j.tasks {
+				verifhook.Yield("workers.queue.task")
 				w.sg.Add(1)
 				w.tasks <- t
 			}
 			w.sg.Wait()
+			verifhook.Yield("workers.queue.waited")
 			// Send result to queue and reset err
+			verifhook.AwaitLock("workers.queue.lock2", 0, &w.lock)
 			w.lock.Lock()
 			close(j.completed)
 			j.result <- w.err
@@ -84,6 +91,7 @@ func (w *ParallelWorkers) processQueue() {
 			w.lock.Unlock()
 		}
 		// Ensure stop returns
+		verifhook.AwaitLock("workers.queue.lock3", 0, &w.lock)
 		w.lock.Lock()
 		if w.shouldShutdown && !w.triggeredShutdown {
 			w.triggeredShutdown = true
@@ -101,10 +109,13 @@ func (w *ParallelWorkers) startWorker() {
 		for {
 			select {
 			case <-w.stopWorkers:
+				verifhook.Yield("workers.worker.stop")
 				w.stoppedWorkers <- struct{}{}
 				return
 			case j := <-w.tasks:
+				verifhook.Yield("workers.worker.task")
 				// Check if we should even do the work
+				verifhook.AwaitRLock("workers.worker.rlock", 0, &w.lock)
 				w.lock.RLock()
 				err := w.err
 				w.lock.RUnlock()
@@ -114,12 +125,14 @@ func (w *ParallelWorkers) startWorker() {
 				}
 				// Attempt to process the job
 				if err := j(); err != nil {
+					verifhook.AwaitLock("workers.worker.lock", 0, &w.lock)
 					w.lock.Lock()
 					if w.err == nil {
 						w.err = err
 					}
 					w.lock.Unlock()
 				}
+				verifhook.Yield("workers.worker.done")
 				w.sg.Done()
 			}
 		}
@@ -129,13 +142,16 @@ func (w *ParallelWorkers) startWorker() {
 // Stop stops the worker pool by setting shouldShutdown, closing the
 // queue and waiting for all workers to complete.
 func (w *ParallelWorkers) Stop() {
+	verifhook.AwaitLock("workers.Stop.lock", 0, &w.lock)
 	w.lock.Lock()
 	w.shouldShutdown = true
 	w.lock.Unlock()
+	verifhook.Yield("workers.Stop.close")
 	close(w.queue)
 
 	// Wait for scheduler to return
 	<-w.ackShutdown
+	verifhook.Yield("workers.Stop.acked")
 	close(w.stopWorkers)
 
 	// Wait for all workers to return
@@ -164,6 +180,7 @@ func (j *ParallelJob) Done(f func()) {
 		// Callback when completed (useful for tracing)
 		go func() {
 			<-j.completed
+			verifhook.Yield("workers.job.completed")
 			f()
 		}()
 	}
@@ -188,6 +205,7 @@ func (j *ParallelJob) Workers() int {
 // If you don't want to block, make sure taskBacklog is greater than all
 // possible tasks you'll add.
 func (w *ParallelWorkers) NewJob(taskBacklog int) (Job, error) {
+	verifhook.AwaitLock("workers.NewJob.lock", 0, &w.lock)
 	w.lock.Lock()
 	shouldShutdown := w.shouldShutdown
 	w.lock.Unlock()
@@ -200,6 +218,7 @@ func (w *ParallelWorkers) NewJob(taskBacklog int) (Job, error) {
 		completed: make(chan struct{}),
 		result:    make(chan error, 1),
 	}
+	verifhook.Yield("workers.NewJob.enqueue")
 	w.queue <- j
 	return j, nil
 }
